@@ -7,18 +7,19 @@
 From Coq Require Import ZArith List Arith Bool.
 From SK Require Import Lib.Base Model.Convert Proofs.ConvertProofs Model.Anomaliser Proofs.AnomaliserProofs.
 Import ListNotations.
+From SK Require Import Check.AnomaliserCheck Proofs.CheckerSoundness.
 
 
-Theorem C17_groups_are_the_segments : forall (n : nat) (cpts : list nat), cpts_ok n cpts -> 0 < n -> groups (cd_s2d n cpts) = map seg_rows (segments n cpts).
+Theorem C17_groups_are_the_segments : forall (n : nat) (cpts : list nat), cpts_ok n cpts -> (0 < n)%nat -> groups (cd_s2d n cpts) = map seg_rows (segments n cpts).
 Proof. exact @groups_of_dense. Qed.
 
-Theorem C17_output_is_exactly_the_flagged_segments : forall (stat : list nat -> Z) (lo hi : Z) (n : nat) (cpts : list nat), cpts_ok n cpts -> 0 < n -> anomalise stat lo hi n cpts = anomalise_spec stat lo hi n cpts.
+Theorem C17_output_is_exactly_the_flagged_segments : forall (stat : list nat -> Z) (lo hi : Z) (n : nat) (cpts : list nat), cpts_ok n cpts -> (0 < n)%nat -> anomalise stat lo hi n cpts = anomalise_spec stat lo hi n cpts.
 Proof. exact @anomalise_is_spec. Qed.
 
-Theorem C17_reported_iff_flagged_segment : forall (stat : list nat -> Z) (lo hi : Z) (n : nat) (cpts : list nat) (s e : nat), cpts_ok n cpts -> 0 < n -> In (s, e) (anomalise stat lo hi n cpts) <-> In (s, e) (segments n cpts) /\ flagged stat lo hi (seq s (e - s)) = true.
+Theorem C17_reported_iff_flagged_segment : forall (stat : list nat -> Z) (lo hi : Z) (n : nat) (cpts : list nat) (s e : nat), cpts_ok n cpts -> (0 < n)%nat -> In (s, e) (anomalise stat lo hi n cpts) <-> In (s, e) (segments n cpts) /\ flagged stat lo hi (seq s (e - s)) = true.
 Proof. exact @anomalise_iff. Qed.
 
-Theorem C17_segments_partition_the_data : forall (n : nat) (cpts : list nat), cpts_ok n cpts -> 0 < n -> ivs_ok n (segments n cpts) /\ (forall i : nat, i < n -> exists s e : nat, In (s, e) (segments n cpts) /\ s <= i < e).
+Theorem C17_segments_partition_the_data : forall (n : nat) (cpts : list nat), cpts_ok n cpts -> (0 < n)%nat -> ivs_ok n (segments n cpts) /\ (forall i : nat, (i < n)%nat -> exists s e : nat, In (s, e) (segments n cpts) /\ (s <= i < e)%nat).
 Proof. exact @segments_partition. Qed.
 
 Theorem C17_segments_touch : forall (n : nat) (cpts : list nat) (k s1 e1 s2 e2 : nat), nth_error (segments n cpts) k = Some (s1, e1) -> nth_error (segments n cpts) (S k) = Some (s2, e2) -> e1 = s2.
@@ -27,20 +28,23 @@ Proof. exact @segments_consecutive. Qed.
 Theorem C17_number_of_segments : forall (n : nat) (cpts : list nat), length (segments n cpts) = S (length cpts).
 Proof. exact @segments_length. Qed.
 
-Theorem C17_output_wellformed : forall (stat : list nat -> Z) (lo hi : Z) (n : nat) (cpts : list nat), cpts_ok n cpts -> 0 < n -> ivs_ok n (anomalise stat lo hi n cpts).
+Theorem C17_output_wellformed : forall (stat : list nat -> Z) (lo hi : Z) (n : nat) (cpts : list nat), cpts_ok n cpts -> (0 < n)%nat -> ivs_ok n (anomalise stat lo hi n cpts).
 Proof. exact @anomalise_ok. Qed.
 
-Theorem C17_adjacent_segments_not_merged : forall (stat : list nat -> Z) (lo hi : Z) (n : nat) (cpts : list nat), cpts_ok n cpts -> 0 < n -> forall s e : nat, In (s, e) (anomalise stat lo hi n cpts) -> In (s, e) (segments n cpts).
+Theorem C17_adjacent_segments_not_merged : forall (stat : list nat -> Z) (lo hi : Z) (n : nat) (cpts : list nat), cpts_ok n cpts -> (0 < n)%nat -> forall s e : nat, In (s, e) (anomalise stat lo hi n cpts) -> In (s, e) (segments n cpts).
 Proof. exact @anomalise_not_merged. Qed.
 
-Theorem C17_all_flagged : forall (stat : list nat -> Z) (lo hi : Z) (n : nat) (cpts : list nat), cpts_ok n cpts -> 0 < n -> (forall se : nat * nat, In se (segments n cpts) -> flagged stat lo hi (seg_rows se) = true) -> anomalise stat lo hi n cpts = segments n cpts.
+Theorem C17_all_flagged : forall (stat : list nat -> Z) (lo hi : Z) (n : nat) (cpts : list nat), cpts_ok n cpts -> (0 < n)%nat -> (forall se : nat * nat, In se (segments n cpts) -> flagged stat lo hi (seg_rows se) = true) -> anomalise stat lo hi n cpts = segments n cpts.
 Proof. exact @anomalise_all_flagged. Qed.
 
-Theorem C17_count : forall (stat : list nat -> Z) (lo hi : Z) (n : nat) (cpts : list nat), cpts_ok n cpts -> 0 < n -> length (anomalise stat lo hi n cpts) = length (filter (fun se : nat * nat => flagged stat lo hi (seg_rows se)) (segments n cpts)).
+Theorem C17_count : forall (stat : list nat -> Z) (lo hi : Z) (n : nat) (cpts : list nat), cpts_ok n cpts -> (0 < n)%nat -> length (anomalise stat lo hi n cpts) = length (filter (fun se : nat * nat => flagged stat lo hi (seg_rows se)) (segments n cpts)).
 Proof. exact @anomalise_length. Qed.
 
-Theorem C17_adjacent_example : anomalise ex_stat 3 10 6 [2; 4] = [(0, 2); (2, 4)].
+Theorem C17_adjacent_example : anomalise ex_stat 3 10 6 [2%nat; 4%nat] = [(0%nat, 2%nat); (2%nat, 4%nat)].
 Proof. exact @anomalise_adjacent_example. Qed.
+
+Theorem C17_checker_sound : forall c : an_case, an_case_ok c = true -> let st := stat_eval (ac_stat c) (ac_xs c) in ac_impl c = anomalise st (ac_lo c) (ac_hi c) (ac_n c) (ac_cpts c) /\ anomalise st (ac_lo c) (ac_hi c) (ac_n c) (ac_cpts c) = anomalise_spec st (ac_lo c) (ac_hi c) (ac_n c) (ac_cpts c).
+Proof. exact @an_case_ok_sound. Qed.
 
 Print Assumptions C17_groups_are_the_segments.
 Print Assumptions C17_output_is_exactly_the_flagged_segments.
@@ -53,3 +57,4 @@ Print Assumptions C17_adjacent_segments_not_merged.
 Print Assumptions C17_all_flagged.
 Print Assumptions C17_count.
 Print Assumptions C17_adjacent_example.
+Print Assumptions C17_checker_sound.
